@@ -28,6 +28,18 @@ pub struct RuntimeError {
     pub backtrace: Vec<(CompactString, Span)>,
 }
 
+impl RuntimeError {
+    /// An error that is not raised by an executing instruction (a failing REPL command,
+    /// a definition that is rejected while it is compiled, ...): there is no source
+    /// location and no call stack that could be blamed for it.
+    pub fn without_backtrace(kind: RuntimeErrorKind) -> Self {
+        RuntimeError {
+            kind,
+            backtrace: vec![],
+        }
+    }
+}
+
 impl fmt::Display for RuntimeError {
     fn fmt(&self, f: &mut std::fmt::Formatter<'_>) -> std::fmt::Result {
         write!(f, "{}", self.kind)
